@@ -38,6 +38,8 @@ func c16Pool(e *Env) {
 			switch k {
 			case 0:
 				objs[k] = e.C.New[t.QName]() // the zero value: every nested part absent
+			case 1:
+				objs[k] = e.NewVia(t.QName, 1) // what the generated constructor hands out
 			default:
 				objs[k] = g.Value(t)
 			}
@@ -133,8 +135,8 @@ func c16Pool(e *Env) {
 					bufs[bj].Reset()
 					bsnap[bj] = bsnap[bj][:0]
 				} else {
-					trace = append(trace, fmt.Sprintf("step %d: obj%d = new zero value", s, oi))
-					objs[oi] = e.C.New[t.QName]()
+					trace = append(trace, fmt.Sprintf("step %d: obj%d = new zero value / constructor result", s, oi))
+					objs[oi] = e.NewVia(t.QName, s)
 					snaps[oi] = val.Clone(objs[oi])
 				}
 			}
